@@ -13,6 +13,7 @@
 #endif
 
 void version();
+void ensure_std_fds();
 
 #ifdef _WIN32
 // add correct declaration for basename
